@@ -4,6 +4,8 @@
    only parses, calls them and prints. *)
 open Model
 type string = Stdlib.String.t
+let max = Stdlib.max
+let min = Stdlib.min
 open Conv
 
 type bst = { buf : Bytes.t; le : bool; total : int }
